@@ -341,6 +341,21 @@ func execMutCase(c *Sx, env *execEnv) (*Sx, []Violation) {
 		}
 		_, _ = diff.NewDiffAnalyzer(diff.WithLogger(nullLogger{})).ConnDiffFromDirPaths(dirO, dirM)
 	})
+	// the commands themselves (they hand what the library returns straight to the formatter), with and without --fail
+	run("cli-diff", func() {
+		for _, fail := range []bool{true, false} {
+			for _, f := range []string{"txt", "md"} {
+				_, _ = cli.VerifRun([]string{"diff", "--dir1", dirM, "--dir2", dirO, "-o", f, "-q", "-f", "", fmt.Sprintf("--fail=%v", fail), "--dirpath", ""})
+				_, _ = cli.VerifRun([]string{"diff", "--dir1", dirO, "--dir2", dirM, "-o", f, "-q", "-f", "", fmt.Sprintf("--fail=%v", fail), "--dirpath", ""})
+			}
+		}
+	})
+	run("lib-diff-stop", func() {
+		da := diff.NewDiffAnalyzer(diff.WithLogger(nullLogger{}), diff.WithStopOnError())
+		if d, e := da.ConnDiffFromDirPaths(dirM, dirO); e == nil {
+			_, _ = da.ConnectivityDiffToString(d) // as the command does: whatever came back without an error is formatted
+		}
+	})
 	if len(pods) >= 1 {
 		a, b := pods[0], pods[len(pods)-1]
 		sa, sb := strings.SplitN(a, "/", 2), strings.SplitN(b, "/", 2)
